@@ -642,11 +642,82 @@ def rule_R19(text, log):
     return text
 
 
-RULES = {'R19': rule_R19, 'R9b': rule_R9b, 'R18': rule_R18, 'R4b': rule_R4b, 'R4c': rule_R4c, 'R4d': rule_R4d, 'R9c': rule_R9c, 'R16': rule_R16, 'R5': rule_R5, 'R15': rule_R15, 'R6bp': rule_R6bp,
+def rule_R4f(text, log):
+    """for _ in (A..B).step_by(K) { S }  ==>  { let mut st__ = A; let e__ = B; while st__ < e__ { S st__ += K; } }"""
+    while True:
+        hit = None
+        for (s0, pat, expr, bo, bc) in _for_loops(text):
+            mm = re.fullmatch(r'\(\s*(.*?)\s*\.\.\s*(.*?)\s*\)\s*\.\s*step_by\s*\(\s*(\w+)\s*\)', expr, re.S)
+            if mm and pat == '_':
+                hit = (s0, mm, bo, bc)
+                break
+        if not hit:
+            return text
+        s0, mm, bo, bc = hit
+        body = text[bo + 1:bc]
+        after = '{ let mut st__ = %s; let e__ = %s; while st__ < e__ {%s st__ += %s; } }' % (mm.group(1), mm.group(2), body, mm.group(3))
+        log.append(dict(rule='R4f', before='for _ in (%s..%s).step_by(%s) { ... }' % mm.groups(), after='{ let mut st__ = %s; let e__ = %s; while st__ < e__ { ... st__ += %s; } }' % mm.groups()))
+        text = text[:s0] + after + text[bc + 1:]
+
+
+def rule_R4e(text, log):
+    """for (I, P) in V.into_iter().enumerate() { B }  (V: Vec of Copy elements)  ==>
+       { let ve__ = V; let mut ie__ = 0; while ie__ < ve__.len() { let I = ie__; let P = ve__[ie__]; B ie__ += 1; } }"""
+    while True:
+        hit = None
+        for (s0, pat, expr, bo, bc) in _for_loops(text):
+            mm = re.fullmatch(r'([A-Za-z0-9_\.]+)\s*\.\s*into_iter\s*\(\s*\)\s*\.\s*enumerate\s*\(\s*\)', expr, re.S)
+            mp = re.fullmatch(r'\(\s*(' + IDENT + r')\s*,\s*(' + IDENT + r')\s*\)', pat)
+            if mm and mp:
+                hit = (s0, mm.group(1), mp.group(1), mp.group(2), bo, bc)
+                break
+        if not hit:
+            return text
+        s0, v, i, p_, bo, bc = hit
+        body = text[bo + 1:bc]
+        after = '{ let ve__ = %s; let mut ie__: usize = 0; while ie__ < ve__.len() { let %s = ie__; let %s = ve__[ie__];%s ie__ += 1; } }' % (v, i, p_, body)
+        log.append(dict(rule='R4e', before='for (%s, %s) in %s.into_iter().enumerate() { ... }' % (i, p_, v), after='{ let ve__ = %s; let mut ie__: usize = 0; while ie__ < ve__.len() { let %s = ie__; let %s = ve__[ie__]; ... ie__ += 1; } }' % (v, i, p_)))
+        text = text[:s0] + after + text[bc + 1:]
+
+
+def rule_R3c(text, log):
+    """O.get_or_insert(V)  ==>  ({ if O.is_none() { O = Some(V); } O.as_mut().unwrap() })   (V is a pure expression)"""
+    while True:
+        m = mask(text)
+        mm = re.search(r'\.\s*get_or_insert\s*\(', m)
+        if not mm:
+            return text
+        op = m.index('(', mm.start())
+        cl = match_close(m, op)
+        rs = receiver_start(m, mm.start())
+        recv = re.sub(r'\s+', '', text[rs:mm.start()])
+        v = text[op + 1:cl].strip()
+        after = '({ if %s.is_none() { %s = Some(%s); } %s.as_mut().unwrap() })' % (recv, recv, v, recv)
+        log.append(dict(rule='R3c', before=text[rs:cl + 1][:200], after=after))
+        text = text[:rs] + after + text[cl + 1:]
+
+
+def rule_R19p(text, log):
+    """E.map_err(path)  ==>  (match E { Ok(x__) => Ok(x__), Err(e__) => Err(path(e__)) })"""
+    while True:
+        m = mask(text)
+        mm = None
+        for cand in re.finditer(r'\.\s*map_err\s*\(\s*([A-Za-z_][A-Za-z0-9_:]*)\s*\)', m):
+            mm = cand
+        if not mm:
+            return text
+        rs = receiver_start(m, mm.start())
+        recv = text[rs:mm.start()].rstrip()
+        after = '(match %s { Ok(x__) => Ok(x__), Err(e__) => Err(%s(e__)) })' % (recv, mm.group(1))
+        log.append(dict(rule='R19', before=text[rs:mm.end()][:200], after=after[:200]))
+        text = text[:rs] + after + text[mm.end():]
+
+
+RULES = {'R3c': rule_R3c, 'R19p': rule_R19p, 'R4e': rule_R4e, 'R4f': rule_R4f, 'R19': rule_R19, 'R9b': rule_R9b, 'R18': rule_R18, 'R4b': rule_R4b, 'R4c': rule_R4c, 'R4d': rule_R4d, 'R9c': rule_R9c, 'R16': rule_R16, 'R5': rule_R5, 'R15': rule_R15, 'R6bp': rule_R6bp,
     'R1': rule_R1, 'R2': rule_R2, 'R3': rule_R3, 'R3b': rule_R3b, 'R4': rule_R4,
     'R6': rule_R6, 'R6b': rule_R6b, 'R6c': rule_R6c,
 }
-DEFAULT_ORDER = ['R15', 'R18', 'R19', 'R6c', 'R9b', 'R1', 'R2', 'R3', 'R3b', 'R6', 'R6b', 'R6bp', 'R4']
+DEFAULT_ORDER = ['R15', 'R18', 'R19', 'R19p', 'R3c', 'R6c', 'R9b', 'R1', 'R2', 'R3', 'R3b', 'R6', 'R6b', 'R6bp', 'R4']
 
 
 def apply_rules(text, log, rules=None):
